@@ -176,6 +176,9 @@ struct Sink {
     calls: usize,
     fail_at: Option<usize>,
     chunk: usize,
+    /// a sink of bounded capacity (`&mut [u8]`, `Cursor<&mut [u8]>` semantics): takes what fits and
+    /// answers `Ok(0)` once it is full - the other way std sinks report "cannot take more"
+    cap: Option<usize>,
 }
 impl Write for Sink {
     fn write(&mut self, b: &[u8]) -> io::Result<usize> {
@@ -184,7 +187,10 @@ impl Write for Sink {
         if self.fail_at == Some(k) {
             return Err(io::Error::new(io::ErrorKind::Other, "injected sink fault"));
         }
-        let n = b.len().min(self.chunk.max(1));
+        let mut n = b.len().min(self.chunk.max(1));
+        if let Some(c) = self.cap {
+            n = n.min(c - self.bytes.len().min(c));
+        }
         self.bytes.extend_from_slice(&b[..n]);
         Ok(n)
     }
@@ -339,16 +345,18 @@ pub fn run(o: &Opts) -> Report {
             catch(|| {
                 let mut e = WebPEncoder::new(&mut *sink);
                 if meta {
-                    e.set_exif_metadata(vec![1, 2, 3]);
-                    e.set_icc_profile(vec![4; 5]);
+                    // odd and even payloads in every position (the last chunk of the file is EXIF or XMP)
+                    if t % 4 == 0 { e.set_exif_metadata(vec![1, 2, 3]); }
+                    e.set_icc_profile(vec![4; 5 + (t % 3) as usize]);
+                    if t % 4 == 2 { e.set_xmp_metadata(vec![7; 9]); e.set_exif_metadata(vec![1, 2]); }
                 }
                 e.encode(&data, w, h, image_webp::ColorType::Rgba8).map_err(|e| format!("{e:?}"))
             })
         };
-        let mut base = Sink { bytes: vec![], calls: 0, fail_at: None, chunk: usize::MAX };
+        let mut base = Sink { bytes: vec![], calls: 0, fail_at: None, chunk: usize::MAX, cap: None };
         let _ = enc(&mut base);
         for chunk in [1usize, 2, 3, 7] {
-            let mut s = Sink { bytes: vec![], calls: 0, fail_at: None, chunk };
+            let mut s = Sink { bytes: vec![], calls: 0, fail_at: None, chunk, cap: None };
             let r = enc(&mut s);
             rep.case(&format!("encode {w}x{h} meta={meta} sinkchunk {chunk} data {}", hex(&data)), true);
             rep.hit("encoder_sink_split");
@@ -356,8 +364,20 @@ pub fn run(o: &Opts) -> Report {
                 rep.disagree(Disagreement { case: format!("encode {w}x{h} meta={meta} sinkchunk {chunk} data {}", hex(&data)), got: format!("{r:?} {} bytes", s.bytes.len()), expected: format!("Ok, {} identical bytes", base.bytes.len()), class: "violation", obligation: "C10: the encoder produces identical bytes however the sink splits writes".into(), detail: String::new() });
             }
         }
+        // a sink that is full after `cap` bytes (every capacity below the file length, and the exact one)
+        for cap in 0..=base.bytes.len() {
+            let mut s = Sink { bytes: vec![], calls: 0, fail_at: None, chunk: usize::MAX, cap: Some(cap) };
+            let r = enc(&mut s);
+            let case = format!("encode {w}x{h} meta={meta} sinkcapacity {cap} of {} data {}", base.bytes.len(), hex(&data));
+            rep.case(&case, true);
+            rep.hit("encoder_sink_capacity");
+            let ok = if cap < base.bytes.len() { matches!(&r, Ok(Err(e)) if e.starts_with("IoError")) } else { matches!(r, Ok(Ok(()))) && s.bytes == base.bytes };
+            if !ok {
+                rep.disagree(Disagreement { case, got: format!("{r:?} {} bytes written", s.bytes.len()), expected: (if cap < base.bytes.len() { "Err(IoError)" } else { "Ok, identical bytes" }).into(), class: "violation", obligation: "C10: the encoder returns an I/O error whenever its sink cannot take the bytes (write answering Ok(0)), and never reports success for a truncated file".into(), detail: format!("sink full after {cap} of {} bytes", base.bytes.len()) });
+            }
+        }
         for k in 0..base.calls {
-            let mut s = Sink { bytes: vec![], calls: 0, fail_at: Some(k), chunk: usize::MAX };
+            let mut s = Sink { bytes: vec![], calls: 0, fail_at: Some(k), chunk: usize::MAX, cap: None };
             let r = enc(&mut s);
             rep.case(&format!("encode {w}x{h} meta={meta} sinkfault {k} data {}", hex(&data)), true);
             rep.hit("encoder_sink_faults");
